@@ -107,6 +107,14 @@ def bias_world(r, W, anp):
         W['netpols'].append({'ns': w['ns'], 'name': 'wide-all', 'podSelector': {}, 'policyTypes': pt, d: [{key: [{'namespaceSelector': {}}], 'ports': [{'protocol': 'TCP', 'port': 8080}]}]})
         W['netpols'].append({'ns': w['ns'], 'name': 'wide-one', 'podSelector': {'matchLabels': dict(w['labels'])}, 'policyTypes': pt,
                              d: [{key: [{'namespaceSelector': {}}], 'ports': [{'protocol': 'TCP', 'port': 9090}]}]})
+    nss_ = sorted({w_['ns'] for w_ in W['workloads']})
+    if not anp and len(nss_) >= 2 and r.random() < 0.25:
+        # the same pod-selector-only peer in policies of two namespaces: two different representative peers (one per namespace)
+        d = r.choice(['ingress', 'egress'])
+        key = 'from' if d == 'ingress' else 'to'
+        for nsx in nss_[:2]:
+            W['netpols'].append({'ns': nsx, 'name': 'samepeer', 'podSelector': {}, 'policyTypes': ['Ingress' if d == 'ingress' else 'Egress'],
+                                 d: [{key: [{'podSelector': {'matchLabels': {'role': 'client'}}}], 'ports': [{'protocol': 'TCP', 'port': 8080}]}]})
     if r.random() < 0.3:
         # a Route and an Ingress that certainly yield {ingress-controller} lines: own namespace without policies
         W['workloads'].append({'kind': 'Deployment', 'ns': 'nsr', 'name': 'wr', 'labels': {'app': 'r'}, 'replicas': 1, 'owner': None, 'omit_ns': False,
